@@ -320,9 +320,7 @@ class Contents(object):
                 rd, mt = reader_for(case['kind'], [('FOO-MIB.txt', data)])
                 got = ask(rd, 'FOO-MIB')
                 want = data.decode('utf-8', 'ignore')
-                if label == 'empty' and case['kind'] == 'zip' and got[0] == 'not-found':
-                    pass  # an empty archive member carries no text; reporting it as absent is as good as returning ''
-                elif got[0] != 'found' or got[1] != want or got[2] != mt:
+                if got[0] != 'found' or got[1] != want or got[2] != mt:
                     vs.append(('C14|contents|%s|%s|not-the-decoded-content' % (case['kind'], label), 'got %r want %r' % (got, want)))
                 return got[0], vs, 1
             if g == 'toolarge':
